@@ -290,6 +290,7 @@ pub fn run(_params: &Params) {
   let kb_default_opts = KeyBindingJWTValidationOptions::default();
   let mut issued: Vec<Issued> = Vec::new();
   let mut accepted_with_other_typ: Option<String> = None;
+  let mut accepted_zero_disclosure_hash = false;
   let mut old_kbs: Vec<String> = Vec::new();
   let mut nontrivial = false;
   let rounds = if ctx::chance(1, 50) {
@@ -803,6 +804,7 @@ pub fn run(_params: &Params) {
     };
     // oracle
     let mut want: Option<&'static str> = None;
+    let mut zero_disclosure_hash_seen = false;
     let mut label = "-";
     match &received.key_binding_jwt {
       None => {
@@ -851,8 +853,26 @@ pub fn run(_params: &Params) {
                       ctx::stat("false.kb.signature");
                     } else {
                       let claims = p.payload.clone().unwrap_or(Value::Null);
-                      let hash_payload = format!("{}~{}~", received.jwt, received.disclosures.join("~"));
-                      let digest = digest_of(&hash_payload);
+                      // sd_hash is taken over the presentation without the KB-JWT: "<jwt>~<d1>~...~<dn>~", which is
+                      // "<jwt>~" when nothing is disclosed. The library (validator and the pinned sd-jwt-payload that
+                      // creates the claims) hashes "<jwt>~~" in that case, a string that is never presented: honest
+                      // holders of this library are judged by the library's own formula so that the other conjuncts stay
+                      // under observation, and the discrepancy is reported once per run (known finding).
+                      // (parsing "<jwt>~<kb>" yields one empty disclosure rather than none)
+                      let nothing_disclosed = received.disclosures.iter().all(|d| d.is_empty());
+                      let hash_payload = if nothing_disclosed {
+                        format!("{}~", received.jwt)
+                      } else {
+                        format!("{}~{}~", received.jwt, received.disclosures.join("~"))
+                      };
+                      let mut digest = digest_of(&hash_payload);
+                      if nothing_disclosed {
+                        let library_digest = digest_of(&format!("{}~~", received.jwt));
+                        if claims.get("sd_hash").and_then(|v| v.as_str()) == Some(library_digest.as_str()) {
+                          zero_disclosure_hash_seen = true;
+                          digest = library_digest;
+                        }
+                      }
                       let c_iat = claims.get("iat").and_then(|v| v.as_i64());
                       if claims.get("sd_hash").and_then(|v| v.as_str()) != Some(digest.as_str()) {
                         want = Some("InvalidDigest");
@@ -917,6 +937,9 @@ pub fn run(_params: &Params) {
           .and_then(|p| p.header.get("typ").and_then(|t| t.as_str().map(str::to_owned)));
         if typ_received.as_deref() != Some("kb+jwt") {
           accepted_with_other_typ = typ_received;
+        }
+        if zero_disclosure_hash_seen {
+          accepted_zero_disclosure_hash = true;
         }
         if opt_nonce.as_ref().map(|o| *o != claims.nonce).unwrap_or(false) {
           ctx::violation("C16", "C16.kb_accept_only_if_fully_bound", "accepted/nonce-differs", "returned KB claims carry another nonce than the configured one");
@@ -1033,6 +1056,14 @@ pub fn run(_params: &Params) {
       }
     }
     nontrivial = true;
+  }
+  if accepted_zero_disclosure_hash && !ctx::has_violation() {
+    ctx::violation(
+      "C16",
+      "C16.kb_accept_only_if_fully_bound",
+      "accepted/sd_hash-over-a-string-that-is-not-the-presentation-when-nothing-is-disclosed",
+      "a KB-JWT presented with zero disclosures was accepted with an sd_hash over \"<jwt>~~\"; the presented token without its KB-JWT is \"<jwt>~\"",
+    );
   }
   // reported once per run and after everything else, so that the remaining conjuncts stay under observation
   if let Some(typ) = accepted_with_other_typ {
